@@ -127,6 +127,13 @@ Proof. exact (fetch_concat dt segs []). Qed.
 Theorem c19_fetched_is_wire fx w got : fetched fx w = Some got -> got = w.
 Proof. exact (fetched_wire fx w got). Qed.
 
+(* overlapping responses: handlers are values; what is written for handler A is a function of A's
+   own payload, whatever other handlers are built and served before A is written out (the
+   implementation is run with responses overlapping in time and compared body by body) *)
+Theorem c19_handlers_independent g (before : list sx) (sub : sx) (after : list sx) :
+  nth (List.length before) (map (obs_sub g) (before ++ sub :: after)%list) bad_case = obs_sub g sub.
+Proof. exact (overlap_independent g before sub after). Qed.
+
 (* replaced Filter hooks (public variables of the package): with FilterData replaced, whatever
    object the hook returns is what is marshalled and sent -- with the status the object declares
    through HTTPStatus, 200 otherwise -- and the client half sees exactly that object: code
@@ -190,6 +197,7 @@ Print Assumptions c19_client_model.
 Print Assumptions c19_fetch.
 Print Assumptions c19_fetch_whole.
 Print Assumptions c19_fetched_is_wire.
+Print Assumptions c19_handlers_independent.
 Print Assumptions c19_filter_hook.
 Print Assumptions c19_client_jsonp.
 Print Assumptions c19_utf8_ascii.
